@@ -791,6 +791,8 @@ class ClientSession:
                         ):
                             method = hdrs.METH_GET
                             data = None
+                            # The body is gone, and its framing with it
+                            chunked = None
                             if headers.get(hdrs.CONTENT_LENGTH):
                                 headers.pop(hdrs.CONTENT_LENGTH)
                         else:
